@@ -783,6 +783,26 @@ func c03BigRings(r *engine.Run) {
 			}
 		}
 	}
+	// an inner ring that lies OUTSIDE the shell and touches it in exactly one point, written from
+	// every start vertex, with that vertex repeated 0..2 times (the containment probe must get past
+	// control points that sit on the shell's boundary)
+	sq4 := []universe.LPt{{0, 0}, {4, 0}, {4, 4}, {0, 4}, {0, 0}}
+	for _, out := range [][]universe.LPt{{{4, 2}, {6, 1}, {6, 3}, {4, 2}}, {{2, 4}, {3, 6}, {1, 6}, {2, 4}}, {{4, 4}, {6, 4}, {6, 6}, {4, 4}}, {{2, 0}, {1, -2}, {3, -2}, {2, 0}}} {
+		m := len(out) - 1
+		for k := 0; k < m; k++ {
+			for _, rev := range []bool{false, true} {
+				rot := rotateRing(out, k, rev)
+				for rep := 0; rep <= 2; rep++ {
+					ring := append([]universe.LPt{}, rot[0])
+					for q := 0; q < rep; q++ {
+						ring = append(ring, rot[0])
+					}
+					ring = append(ring, rot[1:]...)
+					jobs = append(jobs, job{[][]universe.LPt{sq4, ring}})
+				}
+			}
+		}
+	}
 	var valid atomic.Int64
 	done := r.Parallel(len(jobs), func(i int) {
 		rings := jobs[i].rings
